@@ -1073,6 +1073,10 @@ func (m *Machine) formatVerb(verb rune, flags string, v Value) Str {
 		}
 		parts = append(parts, Lit("]"))
 		return Cat(parts...)
+	case *Map:
+		if verb == 'v' {
+			return Lit("map[...]")
+		}
 	case Unknown:
 		panic(m.undecided("formatting an unknown value (%s)", x.Why))
 	case nil:
